@@ -38,6 +38,9 @@ pub use space_usage::SpaceUsage;
 pub mod darray;
 pub use darray::DArray;
 
+#[cfg(qwt_verif)]
+pub mod verif_hooks;
+
 /// Type alias for a Quad Wavelet Tree with block size of 256
 pub type QWT256<T> = QWaveletTree<T, RSQVector256>;
 /// Type alias for a Quad Wavelet Tree with block size of 512
